@@ -13,9 +13,9 @@ Sub-checks (violation keys; <T> = likelihood type):
   C19:sample:ratio_flat      a sample made only of ratio-type lenses has the same likelihood at >= 3 values of H0.
   C19:td_const:<T>           time-delay types: d = L_B(p with h0*c) - L_A(p), where B holds the data divided by c (distances, their sigmas,
                              samples and bandwidths; time delays for TDMag*), equals the closed-form constant
-                                 DdtGaussian, DdtDdGaussian, DdtGaussKin, DdtHistKin : 0
+                                 DdtGaussian, DdtDdGaussian, DdtGaussKin             : 0
                                  DdtLogNorm (mu -> mu - ln c)                        : + ln c
-                                 DdtHist, DdtHistKDE                                 : 0 (normalized=False: the -log(1/(sigma sqrt(2pi))) term
+                                 DdtHist, DdtHistKDE, DdtHistKin                     : 0 (normalized=False: the -log(1/(sigma sqrt(2pi))) term
                                                                                          absorbs it) / + ln c (normalized=True)
                                  DdtDdKDE (2-d density)                              : + 2 ln c
                                  TDMag, TDMagMagnitude                               : + n_td ln c   (log-determinant of the delay block)
@@ -226,12 +226,9 @@ def gen_lens(t, rng, idx, km, mu_fid):
     if rng.random() < .2: kw["lambda_scaling_property_beta"] = float(rng.uniform(-1, 1))
     nlos = len(km.get("los_distributions", []))
     u = rng.random()
-    if t == "DdtDdKDE":
-        # outside C19: a DdtDdKDE lens with ANY line-of-sight distribution raises ValueError on this tree (draw_los(size=1)
-        # returns a shape-(1,) array, lenstronomy's KDELikelihood then builds the ragged list [dd, array([ddt])]).  Reported
-        # separately; here such lenses get no kappa_ext distribution so that the H0 x scale relation itself is exercised.
-        pass
-    elif nlos and u < .6:
+    # (a DdtDdKDE lens with a line-of-sight distribution used to raise ValueError -- shape-(1,) ddt from draw_los(size=1) -- until
+    #  "fix: DdtDdKDELikelihood evaluates the KDE at scalar distances"; the combination is generated on purpose.)
+    if nlos and u < .6:
         kw["global_los_distribution"] = int(rng.integers(0, nlos))
     elif u > .88:
         if rng.random() < .5:
@@ -306,7 +303,8 @@ def scale_lens(kw, c):
 def td_constant(kw, c, normalized):
     t = kw["likelihood_type"]
     if t == "DdtLogNorm": return float(np.log(c))
-    if t in ("DdtHist", "DdtHistKDE"): return float(np.log(c)) if normalized else 0.0
+    # DdtHistKin forwards the lens' normalized flag to its histogram part (since "fix: DdtHistKinLikelihood forwards the normalized flag")
+    if t in ("DdtHist", "DdtHistKDE", "DdtHistKin"): return float(np.log(c)) if normalized else 0.0
     if t == "DdtDdKDE": return 2 * float(np.log(c))
     if t in ("TDMag", "TDMagMagnitude"): return len(kw["time_delay_measured"]) * float(np.log(c))
     return 0.0
@@ -444,13 +442,15 @@ def plan(tier, rng):
             for interp in (False, True):
                 if tier == "quick":
                     # quick: per cosmology one path for the single-type cases (alternating, so that every type meets both paths and
-                    # every cosmology both paths through the samples); thorough: full cross product, 4 times
+                    # every cosmology both paths through the samples); thorough: full cross product, 7 times
                     single = (interp == bool(ic % 2))
                 else:
                     single = True
                 if not single:
                     k = int(rng.integers(2, 5))
                     out.append(("ratio", [str(x) for x in rng.choice(RATIO_TYPES, k)], cosmology, interp))
+                    tt = [str(x) for x in rng.choice(TD_TYPES, 2)] + [str(rng.choice(RATIO_TYPES))]
+                    out.append(("td", tt, cosmology, interp))
                     continue
                 for t in RATIO_TYPES:
                     out.append(("ratio", [t], cosmology, interp))
